@@ -46,7 +46,14 @@ YS = [  # (ys, a, b)
     ([0.1, 0.5, 0.3, 0.9], None, None), ([4.0, 1.0, 3.0, 2.0], 0.0, 5.0),
     ([0.4], None, None),
     ([0.2, 0.4, 0.6], None, None),          # already sorted: `unsorting` is the identity
+    # n >= 9 (the ld simulation costs 100000 * n draws, so these are rare in the random histories: P_BIG_SAMPLE): sample sizes at which
+    # the per-order-statistic computations of the ld methods stop being interchangeable with one batched computation (interior
+    # order statistics with mode (i-1)/(n-1) > 0.859 exist from n = 9 on), so that "regardless of n_jobs" is a claim with content
+    ([0.55, 0.1, 0.9, 0.3, 0.7, 0.2, 0.8, 0.4, 0.6], None, None),
+    ([5.0, 1.0, 11.0, 3.0, 7.0, 2.0, 12.0, 4.0, 6.0, 9.0, 8.0, 10.0], 0.0, 13.0),
 ]
+N_YS_SMALL = 8          # the random histories draw from the first N_YS_SMALL samples, and with probability P_BIG_SAMPLE from the rest
+P_BIG_SAMPLE = 0.08
 METHODS = {"dkw": "dkw", "ks": "ks", "et": "ld_equal_tailed", "hd": "ld_highest_density"}
 FITS = [  # (class, ys, constraints); the last two use the unconstrained optimiser (thorough tier only)
     ("q", [0.1, 0.5, 0.7, 0.9], dict(c=2, convex=True)),
@@ -312,8 +319,9 @@ class Tracker:
             self.nret += 1
 
 
-def gen_call(rng, tr, tier, want=None):
-    """a randomised entry-point call on a valid generator"""
+def gen_call(rng, tr, tier, want=None, brng=None):
+    """a randomised entry-point call on a valid generator (`brng`: own generator of the sample-size axis, so that the draws of
+    `rng` are the ones they were)"""
     kind = want or rng.choice(["P", "P", "P", "B", "B", "B", "B", "F"])
     gen = None
     if tr.user and rng.random() < 0.65:
@@ -324,16 +332,18 @@ def gen_call(rng, tr, tier, want=None):
         return dict(op="P", dist=rng.randrange(len(DISTS)), size=rng.choice(SIZES), gen=gen)
     if kind == "B":
         method = rng.choice(["dkw", "ks", "et", "et", "hd"])
-        ysid = rng.randrange(len(YS))
+        ysid = rng.randrange(N_YS_SMALL)
         if method == "hd" and len(YS[ysid][0]) < 2:
             ysid = 0
+        if brng is not None and brng.random() < P_BIG_SAMPLE:
+            ysid = brng.randrange(N_YS_SMALL, len(YS))
         return dict(op="B", method=method, ys=ysid, conf=rng.randrange(len(CONFS)), gen=gen,
                     n_jobs=rng.choice([1, 1, 2, 16, None]))
     nfit = len(FITS) if tier == "thorough" else 4
     return dict(op="F", fit=rng.randrange(nfit), gen=gen)
 
 
-def gen_history(rng, cpu, tier):
+def gen_history(rng, cpu, tier, brng=None):
     tr = Tracker(cpu)
     length = rng.randint(2, 12)
     ops = []
@@ -348,7 +358,7 @@ def gen_history(rng, cpu, tier):
         elif r < 0.40 and tr.nret:
             op = dict(op="M", i=rng.randrange(min(tr.nret, 3)), v=rng.choice([0, 7, 3]))
         else:
-            op = gen_call(rng, tr, tier)
+            op = gen_call(rng, tr, tier, brng=brng)
         tr.apply(op)
         ops.append(op)
     # the observed call
@@ -359,9 +369,9 @@ def gen_history(rng, cpu, tier):
         if rng.random() < 0.3:
             last["ys"] = next(i for i, y in enumerate(YS) if len(y[0]) == len(YS[last["ys"]][0]))
     elif r < 0.5:
-        last = gen_call(rng, tr, tier, want="B")
+        last = gen_call(rng, tr, tier, want="B", brng=brng)
     else:
-        last = gen_call(rng, tr, tier)
+        last = gen_call(rng, tr, tier, brng=brng)
     ops.append(last)
     return ops
 
@@ -416,6 +426,19 @@ def structured_histories(cpu):
          [N(0), B("et", 2, 0, 1, 1), D(1), N(1), B("et", 2, 0, 2, 1), D(2), N(2), B("et", 2, 0, 3, 1), D(3), N(7), B("et", 2, 0, 4, 1)]),
         ("generator freed, new generator with another seed, same ld key (hd, default n_jobs)",
          [N(1), B("hd", 4, 1, 1, None), D(1), N(2), B("hd", 4, 1, 2, None), D(2), N(0), B("hd", 4, 1, 3, None)]),
+        # n_jobs at sample sizes n >= 9: generators in the same state, the same arguments, n_jobs = 1 (in-process), 2 and 16 (pool) and
+        # the default; the model says n_jobs enters only the cache key, so all results must be the same bytes (and the observed call is
+        # also compared with a fresh process)
+        ("n_jobs 1 vs 2 vs 16, ld_highest_density, n = 9, seed 0, confidence 0.9",
+         [N(0), B("hd", 8, 1, 1, 1), N(0), B("hd", 8, 1, 2, 2), N(0), B("hd", 8, 1, 3, 16)]),
+        ("n_jobs 2 vs 1 vs default, ld_highest_density, n = 9, seed 1, confidence 0.5",
+         [N(1), B("hd", 8, 0, 1, 2), N(1), B("hd", 8, 0, 2, 1), N(1), B("hd", 8, 0, 3, None)]),
+        ("n_jobs 1 vs 2 vs 16, ld_highest_density, n = 12, seed 1, confidence 0.9",
+         [N(1), B("hd", 9, 1, 1, 1), N(1), B("hd", 9, 1, 2, 2), N(1), B("hd", 9, 1, 3, 16)]),
+        ("n_jobs 16 vs 1, ld_highest_density, n = 12, global generator via set_seed(2), confidence 0.25",
+         [S(2), B("hd", 9, 2, None, 16), S(2), B("hd", 9, 2, None, 1)]),
+        ("n_jobs 1 vs 2 vs 16, ld_equal_tailed, n = 9, seed 7, confidence 0.5",
+         [N(7), B("et", 8, 0, 1, 1), N(7), B("et", 8, 0, 2, 2), N(7), B("et", 8, 0, 3, 16)]),
         ("generator freed between samples and fits",
          [N(1), P(0, 3, 1), dict(op="F", fit=0, gen=1), D(1), N(2), P(0, 3, 2), D(2), N(7), dict(op="F", fit=0, gen=3)]),
     ]
@@ -448,8 +471,9 @@ def run(seed, tier, replay=None):
     else:
         histories = structured_histories(cpu)
         n_rand = 40 if tier == "quick" else 400
+        brng = C.rng_for("C14.big_samples", seed)
         for i in range(n_rand):
-            histories.append((f"random {i}", gen_history(rng, cpu, tier)))
+            histories.append((f"random {i}", gen_history(rng, cpu, tier, brng)))
 
     # ---- the model's predictions (both policies)
     reqs = []
@@ -541,6 +565,9 @@ def run(seed, tier, replay=None):
             rep.count("op=" + op["op"] + (":" + op["method"] if op["op"] == "B" else ""))
             if op["op"] == "B":
                 rep.count("n_jobs=" + tok(op["n_jobs"]))
+                rep.count("bands sample size n=%d" % len(YS[op["ys"]][0]))
+                if op["method"] in ("et", "hd") and len(YS[op["ys"]][0]) >= 9:
+                    rep.count("ld call with n >= 9: n_jobs=" + tok(op["n_jobs"]))
             if op["op"] in ("P", "B", "F"):
                 rep.count("generator=" + ("explicit" if op["gen"] is not None else "global"))
             my_repeat = tr.repeats(op)
@@ -632,9 +659,9 @@ def run(seed, tier, replay=None):
             else:
                 rep.count(f"further violations keyed {k} (not listed)")
     return rep.result(
-        rule="31 structured histories (incl. generators that are freed and re-allocated), (incl. pairs of calls on distinct generators in equal states) (F1 explicit/global, set_seed rebinding, n_jobs, overwriting returned arrays, "
+        rule="36 structured histories (incl. generators in the same state with n_jobs 1 / 2 / 16 / default at sample sizes 9 and 12; generators that are freed and re-allocated), (incl. pairs of calls on distinct generators in equal states) (F1 explicit/global, set_seed rebinding, n_jobs, overwriting returned arrays, "
              "set_seed(generator), size 0, fits) + random histories of 2-12 calls over seeds {0,1,2,7}, 8 distributions x "
-             "sizes {None,3,(2,2),0,1}, 7 samples (n=1..4) x confidences {.5,.9,.25} x methods {dkw,ks,ld_et,ld_hd} x n_jobs "
+             "sizes {None,3,(2,2),0,1}, 8 samples (n=1..4; n=9, 12 with probability 0.08 per bands call) x confidences {.5,.9,.25} x methods {dkw,ks,ld_et,ld_hd} x n_jobs "
              "{1,2,16,None}, small fits, overwrites; the observed call repeats an earlier ld call's arguments with "
              "probability .35. A case is one call compared with the model's effect set, plus one fresh-process "
              "comparison per history; distinct = distinct (history, index, call).",
